@@ -38,3 +38,16 @@ package pathbadger
 //@   requires ba != nil
 //@   precall pathbadger\.metadata\)\.setPendingRootSeqNo$ :: argIs(2, ba.seqNo) && (ba.seqNo == 0 || !ba.chunk)
 //@   note a batch that records a non-zero sequence number for its root (its nodes went to pending keys) has recorded the root's updated-nodes index (which only non-chunk batches do). FAILS for a chunk batch with a non-zero sequence number - reachable by aborting a multipart restore and starting it again (StartMultipartInsert reserves the NEXT sequence number of the version each time): known finding F8
+
+// ---- chunk import (C12): partial pointers of an already imported node are all merged ----
+
+//@ ghost func PtrMerged(e *node.Pointer, n *node.Pointer) bool { return e == nil || n == nil || e.Hash != n.Hash || e.DBInternal == nil || n.DBInternal != nil }
+//@ ghost func PtrSep(e *node.InternalNode, n *node.InternalNode) bool { return e.Left != n.Left && e.Left != n.Right && e.Left != n.LeafNode && e.Right != n.Left && e.Right != n.Right && e.Right != n.LeafNode && e.LeafNode != n.Left && e.LeafNode != n.Right && e.LeafNode != n.LeafNode }
+
+//@ func badgerBatch.multipartMergeWithExisting
+//@   props C12
+//@   requires ba != nil && ptr != nil
+//@   ensures-local err == nil && defined(existingNode) && existingNode != nil && PtrSep(existingNode, intNode) ==> PtrMerged(existingNode.Left, intNode.Left) && PtrMerged(existingNode.Right, intNode.Right) && PtrMerged(existingNode.LeafNode, intNode.LeafNode)
+//@   loop 1 invariant existingNode != nil && intNode != nil
+//@   loop 1 invariant PtrSep(existingNode, intNode) ==> (idx() >= 1 ==> PtrMerged(existingNode.Left, intNode.Left)) && (idx() >= 2 ==> PtrMerged(existingNode.Right, intNode.Right)) && (idx() >= 3 ==> PtrMerged(existingNode.LeafNode, intNode.LeafNode))
+//@   note when a chunk brings an internal node that the restore has already stored (the nodes on the boundary between two chunks), EVERY child pointer (left, right and leaf) whose subtree was imported earlier keeps the earlier import's database-internal position: none of the three is skipped because another one is absent. A pointer that loses it is written back as "not yet imported" and the restored tree is not readable there
